@@ -1,15 +1,57 @@
 import GrinVerif.Drv.Common
 import GrinVerif.Drv.PmmrD
+import GrinVerif.Drv.SerD
+import GrinVerif.Drv.TxD
+import GrinVerif.Drv.ConsD
+import GrinVerif.Drv.PowD
+import GrinVerif.Drv.BitmapD
+import GrinVerif.Drv.StoreD
+import GrinVerif.Drv.KvD
+import GrinVerif.Drv.ChainD
+import GrinVerif.Drv.PoolD
+import GrinVerif.Drv.SegD
+import GrinVerif.Drv.KeysD
+import GrinVerif.Drv.CodecD
+import GrinVerif.Drv.ConcD
+import GrinVerif.Drv.CrashD
 /-! Line-protocol driver: stdin lines `<domain> <op> <args…> => <impl result>`;
 for each line prints `ok`, `FAIL n model=… impl=…`, `DIFF n model=… impl=…`, `UNK n`. -/
 open GV GV.Drv
 
 structure DState where
   pmmr : PmmrD.St := {}
+  ser : SerD.St := {}
+  tx : TxD.St := {}
+  cons : ConsD.St := {}
+  pow : PowD.St := {}
+  bitmap : BitmapD.St := {}
+  store : StoreD.St := {}
+  kv : KvD.St := {}
+  chain : ChainD.St := {}
+  pool : PoolD.St := {}
+  seg : SegD.St := {}
+  keys : KeysD.St := {}
+  codec : CodecD.St := {}
+  conc : ConcD.St := {}
+  crash : CrashD.St := {}
 
 def dispatch (s : DState) (dom : String) (args : List String) (impl : String) : DState × Verdict :=
   match dom with
   | "pmmr" => let (st, v) := PmmrD.handle s.pmmr args impl; ({ s with pmmr := st }, v)
+  | "ser" => let (st, v) := SerD.handle s.ser args impl; ({ s with ser := st }, v)
+  | "tx" => let (st, v) := TxD.handle s.tx args impl; ({ s with tx := st }, v)
+  | "cons" => let (st, v) := ConsD.handle s.cons args impl; ({ s with cons := st }, v)
+  | "pow" => let (st, v) := PowD.handle s.pow args impl; ({ s with pow := st }, v)
+  | "bitmap" => let (st, v) := BitmapD.handle s.bitmap args impl; ({ s with bitmap := st }, v)
+  | "store" => let (st, v) := StoreD.handle s.store args impl; ({ s with store := st }, v)
+  | "kv" => let (st, v) := KvD.handle s.kv args impl; ({ s with kv := st }, v)
+  | "chain" => let (st, v) := ChainD.handle s.chain args impl; ({ s with chain := st }, v)
+  | "pool" => let (st, v) := PoolD.handle s.pool args impl; ({ s with pool := st }, v)
+  | "seg" => let (st, v) := SegD.handle s.seg args impl; ({ s with seg := st }, v)
+  | "keys" => let (st, v) := KeysD.handle s.keys args impl; ({ s with keys := st }, v)
+  | "codec" => let (st, v) := CodecD.handle s.codec args impl; ({ s with codec := st }, v)
+  | "conc" => let (st, v) := ConcD.handle s.conc args impl; ({ s with conc := st }, v)
+  | "crash" => let (st, v) := CrashD.handle s.crash args impl; ({ s with crash := st }, v)
   | _ => (s, .unknown)
 
 partial def loop (h : IO.FS.Stream) (out : IO.FS.Stream) (s : DState) (n ok fail diff unk : Nat) : IO Unit := do
